@@ -32,11 +32,16 @@ TokLen(s, i) ==
   ELSE IF i + 3 <= Len(s) /\ SubSeq(s, i, i+3) = "mass" THEN 4
   ELSE IF i + 2 <= Len(s) /\ SubSeq(s, i, i+2) = "rad" THEN 3
   ELSE 0
-RECURSIVE LexFrom(_, _)
-LexFrom(s, i) == IF i > Len(s) THEN <<>> ELSE
-                 LET k == TokLen(s, i) IN
-                 IF k = 0 THEN <<"?">> ELSE <<SubSeq(s, i, i+k-1)>> \o LexFrom(s, i+k)
-Lex(s) == LexFrom(s, 1)
+\* left to right, one token after the other; the first character that starts no token ends the scan with "?"
+\* (a fold over the character positions: st.next = where the next token starts)
+LexFold(s) ==
+  FoldLeft(LAMBDA st, i :
+             IF st.bad \/ i < st.next THEN st
+             ELSE LET k == TokLen(s, i) IN
+                  IF k = 0 THEN [next |-> i, toks |-> Append(st.toks, "?"), bad |-> TRUE]
+                  ELSE [next |-> i + k, toks |-> Append(st.toks, SubSeq(s, i, i + k - 1)), bad |-> FALSE],
+           [next |-> 1, toks |-> <<>>, bad |-> FALSE], [i \in 1..Len(s) |-> i])
+Lex(s) == LexFold(s).toks
 
 IsNum(t) == Ch(t, 1) \in Digits
 IsSym(t) == t \in SymSet
